@@ -373,6 +373,9 @@ def run(rep: vlib.Reporter, tier: str, seed: int) -> None:
             and not coq_domains.get(id(r["plan"])) and i not in bad_wf]
     f_mid, _ = c01_midpass.family(rep, "C01", recs, elig, random.Random(seed * 31 + 7), 40 if big else 8)
     found |= f_mid
+    # one polymorphic Link used by two concrete pairs: two JoinSteps produce the link's uuid (harness/polylink.py; recorded finding)
+    from harness import polylink
+    found |= polylink.check(rep, "C01")
     # MULTIPROCESSING (sampled schedules): the same judge on traces written by the worker processes
     from mloda.user import ParallelizationMode
     n_mp = 40 if big else 5
@@ -425,6 +428,9 @@ def replay(path: str) -> int:
         srctie.replay(r, show=True)
         return 0
     install()
+    if r.get("kind") == "polylink":
+        from harness import polylink
+        return polylink.replay(r)
     if r.get("kind") == "midpass":
         from harness import c01_midpass
         return c01_midpass.replay(r)
